@@ -195,15 +195,18 @@ class PaperWallet(BaseWallet):
         sys.stdout.write(os.linesep)
 
     @staticmethod
-    def export_to_file(file_path: str, contents: str) -> None:
+    def export_to_file(file_path: str, contents: str,
+                       exclusive: bool = False) -> None:
         """
         Export contents to file at file path.
 
         :param file_path: path to target file
         :param contents: contents
+        :param exclusive: fail if file already exists instead of
+                            overwriting it (default=False)
         :return: None
         """
-        with open(file_path, "w") as f:
+        with open(file_path, "x" if exclusive else "w") as f:
             f.write(contents)
 
     def wasabi_json(self, indent: int = None):
@@ -221,19 +224,22 @@ class PaperWallet(BaseWallet):
         }, indent=indent)
 
     def export_wallet(self, file_path: str, indent: int = 4,
-                      data: dict = None) -> None:
+                      data: dict = None, exclusive: bool = False) -> None:
         """
         Export wallet to file at file path.
 
         :param file_path: path to target file
         :param indent: indent width
         :param data: source dictionary
+        :param exclusive: fail if file already exists instead of
+                            overwriting it (default=False)
         :return: None
         """
         data = data if data else self.generate()
         self.export_to_file(
             file_path=file_path,
-            contents=self.json(data=data, indent=indent)
+            contents=self.json(data=data, indent=indent),
+            exclusive=exclusive
         )
 
     def export_wasabi(self, file_path: str, indent: int = None) -> None:
